@@ -696,6 +696,13 @@ def signature(pid, clause, rec, case):
         for t in _all_types(rec):
             _collect_names(t, names)
         dup_names = any(len(v) > 1 for v in names.values())
+        # ... the typing module counts: a class called List / Union next to `from typing import List`
+        import re as _re
+        m = _re.search(r"^from typing import \(([^)]*)\)", rec.get("text", ""), _re.M) or \
+            _re.search(r"^from typing import ([^(\n]+)$", rec.get("text", ""), _re.M)
+        typing_names = {x.strip() for x in _re.split(r"[,\n]", m.group(1)) if x.strip()} if m else set()
+        if any(n in typing_names and mods_ - {"typing"} for n, mods_ in names.items()):
+            dup_names = True
         if {"monkeytype", "DUMMY_NAME"} & (set(rec["unres_sig"]) | set(rec["unres_td"])):
             cause = "typeddict_not_replaced_below_a_generic_the_rewriter_does_not_visit"
         elif rec["unres_td"]:
@@ -793,7 +800,7 @@ def _collect_mods(t, acc):
 def main(pid, tier, seed, replay=None):
     core.use_repo()
     envgen.load_fixture_classes()
-    for m in ("zutil", "zpkg", "zpkg.zutil", "zfoo", "barzfoo", "zfoo_v2", "ztarget", "zmytyping", "_zledger"):
+    for m in ("zutil", "zpkg", "zpkg.zutil", "zfoo", "barzfoo", "zfoo_v2", "ztarget", "zmytyping", "_zledger", "mtfx.lookalikes"):
         mod = importlib.import_module(m)
         for v in vars(mod).values():
             if isinstance(v, type):
